@@ -96,7 +96,7 @@ Fixpoint bfs_loop (fuel : nat) (g : graph) (mvl : list (option nat)) (d : list n
     end
   end.
 
-Definition bfs_fuel (g : graph) : nat := num_u g + 2.
+Definition bfs_fuel (g : graph) : nat := 2 * num_u g + 2.
 
 Definition bfs (g : graph) (st : hk) : option (bool * hk) :=
   let dq := bfs_init (num_u g) (mu st) in
